@@ -71,6 +71,30 @@ void harness_rule(void)
 	/* only option keys, twice: refused or fetch-all; never a crash */
 	cJSON_AddItemToObject(rule, "caseInsensitive", cJSON_CreateTrue()); cJSON_AddItemToObject(rule, "caseInsensitive", cJSON_CreateTrue()); expect_match = 1;
 #endif
+#ifdef VIA_GET
+	/* the same rule in a get request: the result array holds exactly the matching elements; get leaves nothing behind */
+	cJSON_Delete(fp);
+	cJSON *gp = cJSON_CreateObject(); cJSON_AddItemToObject(gp, "path", rule);
+	cJSON *greq = mkreq("get", 2, gp);
+	scn_build_end();
+	reset_log();
+	int gr = dispatch(&B, greq);
+	CHECK(gr == 0, "C16.get_keeps_connection");
+	struct sent *gresp = last_of(&B, K_RESPONSE);
+	CHECK(count_responses(&B) == 1 && gresp && nlog == 1, "C02.get_answered_exactly_once_and_nothing_else_sent");
+	int grefused = gresp && gresp->is_error;
+#if RULE == 5 || RULE == 9
+	if (grefused) expect_refused = 1;
+#endif
+	if (expect_refused) { CHECK(grefused, "C16.bad_rule_refused_with_error"); REACH("refused"); }
+	else {
+		CHECK(!grefused && gresp->has_result, "C16.well_formed_rule_accepted");
+		CHECK(gresp->result_items == (expect_match ? 1 : 0), "C16.get_returns_exactly_the_matching_elements");
+		if (expect_match) REACH("matched"); else REACH("not_matched");
+	}
+	CHECK(list_empty(&B.fetch_list) && verif_live_blocks == blocks_base, "C16.get_leaves_no_subscription_and_nothing_allocated");
+	WITNESS_END();
+#else
 	cJSON_AddItemToObject(fp, "path", rule);
 	cJSON *req = mkreq("fetch", 2, fp);
 	scn_build_end();
@@ -105,4 +129,5 @@ void harness_rule(void)
 		if (expect_match) REACH("matched"); else REACH("not_matched");
 	}
 	WITNESS_END();
+#endif
 }
